@@ -510,10 +510,12 @@ fn gen_c07(seed: u64, idx: usize, _tier: Tier) -> C07Scenario {
                     let big: Vec<&String> = wt.iter().filter(|p| p.ends_with(".big")).collect();
                     let path = if !big.is_empty() && g.rng.chance(1, 2) { big[0].clone() } else { wt[g.rng.below(wt.len())].clone() };
                     let has_lines = g.model.wt.get(&path).map(|c| c.contains('\n')).unwrap_or(false) && !path.ends_with("dirlink");
-                    match g.rng.below(8) {
+                    match g.rng.below(9) {
                         0 | 1 => GitOp::EditOld { path },
                         // only the line terminators change: content the file never had
                         2 if has_lines => GitOp::Crlf { path },
+                        // re-saved with the bytes it already has (new inode, new timestamps): not a change
+                        3 if !path.ends_with("dirlink") && g.model.index.contains_key(&path) => GitOp::RewriteSame { path },
                         _ => GitOp::Edit { path },
                     }
                 }
@@ -644,6 +646,9 @@ fn exec_c07_inner(sc: &C07Scenario) -> Outcome {
                     if matches!(op, GitOp::Crlf { .. }) {
                         out.fault("edit_of_line_terminators_only", 1);
                     }
+                }
+                GitOp::RewriteSame { .. } => {
+                    out.fault("file_re_saved_with_identical_content_after_the_update", 1);
                 }
                 _ => {}
             }
